@@ -84,6 +84,7 @@ func faultOpts(prop string, thorough bool) (GenOpts, faultEmphasis) {
 	case "C06":
 		em.ConnPhase = 5
 		em.Timeout = true
+		o.PoisonJSON = true
 		em.Kinds = []stopKind{stopFIN, stopRST, stopShortPacket, stopBadSeq, stopERR, stopERR, stopERR, stopEOF, stopCancel,
 			stopHandlerErr, stopMapperErr, stopMapperMiscount, stopUnsupportedEvent, stopInvalidEvent}
 	case "C07":
